@@ -84,6 +84,15 @@ Proof.
     + right. left. simpl; auto.
 Qed.
 
+Ltac cl_simpl := repeat match goal with
+  | |- context [cl_body (?x, ?c, ?b)] => change (cl_body (x, c, b)) with b
+  | |- context [cl_ctx (?x, ?c, ?b)] => change (cl_ctx (x, c, b)) with c
+  | |- context [cl_xtor (?x, ?c, ?b)] => change (cl_xtor (x, c, b)) with x
+  | H : context [cl_body (?x, ?c, ?b)] |- _ => change (cl_body (x, c, b)) with b in H
+  | H : context [cl_ctx (?x, ?c, ?b)] |- _ => change (cl_ctx (x, c, b)) with c in H
+  | H : context [cl_xtor (?x, ?c, ?b)] |- _ => change (cl_xtor (x, c, b)) with x in H
+  end.
+
 Section Sim.
   Variable P : prog.
   Hypothesis HP : prog_ok P = true.
@@ -365,5 +374,341 @@ Section Sim.
       { destruct (ctx_eqb c nc) eqn:Eq; cbn [fst]; auto. right. apply ctx_eqb_eq in Eq. auto. }
       exists (j + S n1)%nat. rewrite Hj. fold le1. simpl. rewrite Ea1, Eb1, Eo. auto.
     - exists (j0 + 1)%nat. rewrite Hj0. fold le1. simpl. rewrite Ea1, Eb1, Eo. auto.
+  Qed.
+
+  (* ---------------- values of argument lists ---------------- *)
+  Lemma args_vrel : forall rho F ne le (args : ctx) vs,
+    erel rho F ne le -> (forall b, In b args -> In (idn (bvar b)) F) ->
+    lookups ne (vars args) = Some vs ->
+    Forall2 vrel vs (map (fun b => getv le (idn (bvar b))) (map (sub_b rho) args)).
+  Proof.
+    intros rho F ne le args; induction args as [|b r IH]; intros vs He HF Hl.
+    - simpl in Hl. inversion Hl. constructor.
+    - change (vars (b :: r)) with (bvar b :: vars r) in Hl. cbn [lookups] in Hl.
+      unfold lookup_id in Hl. destruct (lookup ne (idn (bvar b))) as [w|] eqn:E; try discriminate.
+      destruct (lookups ne (vars r)) as [ws|] eqn:E'; try discriminate. inversion Hl; subst.
+      simpl. constructor.
+      + destruct (He (idn (bvar b))) as [u [u' [L1 [L2 V]]]]; [apply HF; simpl; auto|].
+        rewrite sub_id_n, (getv_Some _ _ _ L2). congruence.
+      + apply IH; auto. intros b0 Hb0. apply HF. simpl; auto.
+  Qed.
+
+  Lemma shape_snoc_k : forall le (nc : ctx) v (val : value) k t,
+    map fst (rebind le nc nc ++ [(v, val)]) = vars (nc ++ [mkb v k t]).
+  Proof. intros. rewrite map_app, rebind_fst, vars_app; auto. Qed.
+
+  Lemma has_b_sub_ids : forall rho (c : ctx) (args : ctx),
+    forallb (has_b c) (map (sub_b rho) args) = true ->
+    forall b, In b (map (sub_b rho) args) -> In (idn (bvar b)) (ids c).
+  Proof. intros rho c args H b Hb. rewrite forallb_forall in H. apply has_b_In_ids. auto. Qed.
+
+  Lemma same_shape_refl : forall a, same_shape a a.
+  Proof. induction a; constructor; auto. Qed.
+
+  (* what `lin` returns for a let, both branches presented alike *)
+  Lemma lin_let_form : forall f v t tag (ar : ctx) nr c m,
+    let nc := filter_by_set c (fv nr) in
+    (forall x, In x (ids nc) -> x <= m) -> (forall x, In x (ids ar) -> x <= m) ->
+    exists args' n' m1, m <= m1 /\ same_shape ar args' /\
+      n' = fst (lin f nr (nc ++ [mkb v Prd t]) m1) /\
+      (fst (lin (S f) (Let v t tag ar nr) c m) =
+         Substitute (combine (nc ++ args') (vars (nc ++ ar))) (Let v t tag args' n') \/
+       (fst (lin (S f) (Let v t tag ar nr) c m) = Let v t tag args' n' /\ c = nc ++ ar /\ nc ++ args' = nc ++ ar)).
+  Proof.
+    intros f v t tag ar nr c m nc Hb1 Hb2. rewrite lin_let. cbv zeta. fold nc.
+    destruct (ctx_eqb c (nc ++ ar)) eqn:Eq.
+    - destruct (lin f nr (nc ++ [mkb v Prd t]) m) as [n0 m1] eqn:En.
+      exists ar, n0, m. split; [lia|]. split; [apply same_shape_refl|]. split; [rewrite En; auto|].
+      right. apply ctx_eqb_eq in Eq. auto.
+    - destruct (freshen ar (ids nc) m) as [args0 m1] eqn:Ef.
+      destruct (freshen_spec _ _ _ _ _ Ef Hb1 Hb2) as [F1 [F2 _]].
+      destruct (lin f nr (nc ++ [mkb v Prd t]) m1) as [n0 m2] eqn:En.
+      exists args0, n0, m1. split; auto. split; auto. split; [rewrite En; auto|]. left. auto.
+  Qed.
+
+  (* ---------------- let ---------------- *)
+  Lemma sim_let : forall n, sim_n n -> forall rho c v t tag args next s' ne le out o,
+    srel rho c (Let v t tag args next) s' -> map fst le = vars c -> erel rho (fv (Let v t tag args next)) ne le ->
+    exec_named (S n) P ne (Let v t tag args next) out = o -> good o -> exists n', exec_linear n' P' le s' out = o.
+  Proof.
+    intros n IH rho c v t tag args next s' ne le out o Hs Hsh He Hrun Hg.
+    apply srel_fuel in Hs. destruct Hs as [f [m [Hsz [Hns [Hu [Hax [Hinv ->]]]]]]].
+    simpl sub_s in *. simpl in Hsz, Hns, Hu, Hax.
+    assert (I1 : NoDup (ids c)) by apply Hinv.
+    assert (I4 : forall x, In x (ids c) -> x <= m) by apply Hinv.
+    apply andb_true_iff in Hax. destruct Hax as [Hax Hn].
+    apply andb_true_iff in Hax. destruct Hax as [Hok Hargs].
+    set (ar := map (sub_b rho) args) in *. set (nr := sub_s rho next) in *. set (vb := mkb v Prd t).
+    destruct (snoc_ok Sg c (Let v t tag ar nr) m (fv nr) vb nr [] Hinv) as [Hax' [Hinv' [Hnd' [Hnc Iv]]]]; auto.
+    assert (Har : forall b, In b ar -> In (idn (bvar b)) (ids c)) by (apply has_b_sub_ids; auto).
+    destruct (lin_let_form f v t tag ar nr c m) as [args' [n' [m1 [Hm1 [Hshape [Hn' Hform]]]]]].
+    { intros x Hx. apply I4. eapply fbs_ids_incl; eauto. }
+    { intros x Hx. apply In_ids_ex in Hx. destruct Hx as [b [B1 B2]]. subst. auto. }
+    set (nc := filter_by_set c (fv nr)) in *.
+    (* named step *)
+    simpl in Hrun.
+    destruct (ty_name t) as [tn|] eqn:Et; [|subst; exfalso; eapply finish_stuck_not_good; eauto].
+    destruct t as [|tn0]; simpl in Et; try discriminate. inversion Et; subst tn0.
+    destruct (lookups ne (vars args)) as [vs|] eqn:El; [|subst; exfalso; eapply finish_stuck_not_good; eauto].
+    assert (Hvs : Forall2 vrel vs (map (fun b => getv le (idn (bvar b))) ar)).
+    { eapply args_vrel; eauto. intros b Hb. simpl. apply union_In. left. apply In_ids; auto. }
+    assert (Hlen : length args' = length ar) by (symmetry; apply same_shape_length; auto).
+    set (le0 := rebind le nc nc). set (fs := rebind le ar args').
+    destruct (IH rho (nc ++ [vb]) next n' ((v, VObj tn tag vs) :: ne)
+                 (le0 ++ [(v, VObj tn tag (map snd fs))]) out o) as [n1 Hn1]; auto.
+    { apply srel_intro with (f := f) (m := m1); [lia|auto| |exact Hax'| |exact Hn'].
+      - intros x Hx. apply Hu. simpl; auto.
+      - apply Hinv'. lia. }
+    { unfold le0. apply shape_snoc_k. }
+    { unfold le0, nc. eapply erel_snoc; eauto.
+      - intros x [<-|[]]. apply Hu. simpl; auto.
+      - intros x Hx Hne. split.
+        + simpl. apply union_In. right. apply remove_In; auto.
+        + apply fv_sub; auto. intros y Hy. apply Hu. simpl; auto.
+      - constructor. unfold fs. rewrite rebind_snd by auto. auto. }
+    destruct (wrap_exec P' c le (nc ++ args') (nc ++ ar) (Let v (Decl tn) tag args' n')
+                        (fst (lin (S f) (Let v (Decl tn) tag ar nr) c m)) (S n1) out Hsh I1) as [j Hj];
+      [rewrite !app_length; lia| |exact Hform|].
+    { intros b Hb. apply in_app_or in Hb. destruct Hb as [Hb|Hb]; auto. eapply fbs_in_ctx; eauto. }
+    exists (j + S n1)%nat. rewrite Hj. rewrite rebind_app by auto. fold le0 fs.
+    rewrite let_step; auto.
+    - unfold fs. rewrite rebind_length; auto.
+    - unfold fs. apply env_ids_shape. apply rebind_fst; auto.
+  Qed.
+  (* ---------------- clauses ---------------- *)
+  Lemma Forall2_map_l : forall {A B C} (R : B -> C -> Prop) (g : A -> B) l l',
+    Forall2 R (map g l) l' <-> Forall2 (fun x y => R (g x) y) l l'.
+  Proof.
+    intros A B C R g l; induction l as [|x l IH]; intros l'; simpl; split; intros H; inversion H; subst; constructor; auto;
+      apply IH; auto.
+  Qed.
+
+  Lemma find_clause_F2 : forall (R : clause -> clause -> Prop) cls cls' tag cl,
+    Forall2 (fun a b => cl_xtor b = cl_xtor a /\ R a b) cls cls' ->
+    find_clause cls tag = Some cl ->
+    exists cl', find_clause cls' tag = Some cl' /\ R cl cl' /\ In cl cls.
+  Proof.
+    intros R cls cls' tag cl H; induction H as [|a b cls cls' [H1 H2] H IH]; intros Hf; simpl in *; [discriminate|].
+    unfold find_clause in *. simpl in *. rewrite H1.
+    destruct (ident_eqb (cl_xtor a) tag) eqn:E.
+    - inversion Hf; subst. exists b. auto.
+    - destruct (IH Hf) as [cl' [F1 [F2 F3]]]. exists cl'. auto.
+  Qed.
+
+  Lemma lookup_combine_F2 : forall (R : value -> value -> Prop) xs fs fs' x,
+    Forall2 R fs fs' -> length xs = length fs -> In x (map idn xs) ->
+    exists w w', lookup (combine xs fs) x = Some w /\ lookup (combine xs fs') x = Some w' /\ R w w'.
+  Proof.
+    intros R xs fs fs' x H; revert xs; induction H as [|w w' fs fs' Hw H IH]; intros [|y xs] Hlen Hx; simpl in *; try tauto; try discriminate.
+    destruct (N.eqb (idn y) x) eqn:E.
+    - exists w, w'. auto.
+    - apply N.eqb_neq in E. destruct Hx as [Hx|Hx]; [congruence|]. apply IH; auto.
+  Qed.
+
+  Lemma switch_clause_ok : forall c v t cls m cl m0,
+    inv c (Switch v t cls) m -> ax_clauses Sg c cls = true -> In cl cls -> m <= m0 ->
+    ax_check Sg (filter_by_set c (fv_clauses cls) ++ cl_ctx cl) (cl_body cl) = true /\
+    inv (filter_by_set c (fv_clauses cls) ++ cl_ctx cl) (cl_body cl) m0 /\
+    (forall y, In y (ids (cl_ctx cl)) -> ~ In y (ids c)).
+  Proof.
+    intros c v t cls m cl m0 Hinv Hcl Hin Hm0.
+    assert (I1 : NoDup (ids c)) by apply Hinv.
+    assert (I2 : NoDup (binders_cls cls)) by (rewrite <- (binders_switch v t); apply Hinv).
+    assert (I3 : forall x, In x (ids c) -> ~ In x (binders_cls cls)).
+    { rewrite <- (binders_switch v t). apply Hinv. }
+    unfold ax_clauses in Hcl. rewrite forallb_forall in Hcl.
+    set (nc := filter_by_set c (fv_clauses cls)).
+    assert (Hnc : NoDup (ids nc)) by (apply fbs_NoDup; auto).
+    assert (Hd : forall y, In y (ids (cl_ctx cl)) -> ~ In y (ids c)).
+    { intros y Hy Hc. apply (I3 _ Hc). eapply binders_cls_In; eauto. apply in_or_app; auto. }
+    split; [|split; auto].
+    - rewrite <- (Hcl cl Hin). symmetry. apply ax_check_ext. intros x Hx.
+      apply lookup_clause_sw; auto.
+      destruct (in_dec N.eq_dec x (ids (cl_ctx cl))); auto.
+      right. apply fv_clauses_In. exists cl; auto.
+    - destruct (binders_cls_split cls cl Hin) as [pre [post0 E]].
+      apply inv_gen with (c := c) (s := Switch v t cls) (m := m)
+                         (pre := pre ++ ids (cl_ctx cl)) (post := post0); [exact Hinv|lia| | |].
+      + rewrite ids_app. apply NoDup_app_iff. repeat split; auto.
+        * eapply binders_cls_ctx_NoDup; eauto.
+        * intros x Hx Hx'. apply (Hd x Hx'). eapply fbs_ids_incl; eauto.
+      + rewrite binders_switch, E. rewrite <- !app_assoc. auto.
+      + intros x Hx. rewrite ids_app in Hx. apply in_app_or in Hx. destruct Hx as [Hx|Hx].
+        * left. eapply fbs_ids_incl; eauto.
+        * right. left. apply in_or_app; auto.
+  Qed.
+
+  Lemma erel_clause_sw : forall rho Fs F_r c (ccl : ctx) body (fs fs' : list value) e1 e1' ne le,
+    map fst le = vars c -> NoDup (ids c) ->
+    untouched rho (ids ccl) -> (forall y, In y (ids ccl) -> ~ In y (ids c)) ->
+    bind (vars ccl) fs = Some e1 -> bind (vars ccl) fs' = Some e1' -> Forall2 vrel fs fs' ->
+    (forall x, In x (fv body) -> ~ In x (ids ccl) -> In x Fs /\ In (sub_n rho x) F_r) ->
+    erel rho Fs ne le ->
+    erel rho (fv body) (e1 ++ ne) (rebind le (filter_by_set c F_r) (filter_by_set c F_r) ++ e1').
+  Proof.
+    intros rho Fs F_r c ccl body fs fs' e1 e1' ne le Hsh Hnd Hu Hd Hb Hb' Hfs HF He x Hx.
+    apply bind_Some_length in Hb. destruct Hb as [Hl1 ->].
+    apply bind_Some_length in Hb'. destruct Hb' as [Hl1' ->].
+    destruct (in_dec N.eq_dec x (ids ccl)) as [Hin|Hnin].
+    - rewrite (untouched_sub_n rho (ids ccl)) by auto.
+      destruct (lookup_combine_F2 vrel (vars ccl) fs fs' x Hfs Hl1) as [w [w' [L1 [L2 V]]]].
+      { rewrite ids_vars. auto. }
+      exists w, w'. split; [rewrite lookup_app, L1; auto|]. split; auto.
+      rewrite rebind_notin; auto. intros Hc. apply (Hd x Hin). eapply fbs_ids_incl; eauto.
+    - destruct (HF x Hx Hnin) as [H1 H2]. destruct (He x H1) as [w [w' [L1 [L2 V]]]].
+      exists w, w'. split; [|split; auto].
+      + rewrite lookup_app.
+        assert (E : lookup (combine (vars ccl) fs) x = None).
+        { apply lookup_None. unfold env_ids. rewrite <- (map_map fst idn), combine_map_fst by auto. rewrite ids_vars. auto. }
+        rewrite E. auto.
+      + rewrite rebind_self_lookup; auto.
+        * rewrite (getv_Some _ _ _ L2). auto.
+        * apply fbs_NoDup; auto.
+        * apply fbs_ids_In. split; auto.
+          destruct (in_dec N.eq_dec (sub_n rho x) (ids c)); auto.
+          exfalso. assert (lookup le (sub_n rho x) = None).
+          { apply lookup_None. rewrite (env_ids_shape le c); auto. }
+          congruence.
+  Qed.
+
+  Lemma lin_switch_form : forall f vr t clsr c m,
+    let nc := filter_by_set c (fv_clauses clsr) in
+    let cls' := fst (lin_cls (lin f) (fun cc => nc ++ cc) clsr m) in
+    exists v',
+      (fst (lin (S f) (Switch vr t clsr) c m) =
+         Substitute (combine (nc ++ [mkb v' Prd t]) (vars (nc ++ [mkb vr Prd t]))) (Switch v' t cls') \/
+       (fst (lin (S f) (Switch vr t clsr) c m) = Switch v' t cls' /\ c = nc ++ [mkb vr Prd t] /\
+        nc ++ [mkb v' Prd t] = nc ++ [mkb vr Prd t])).
+  Proof.
+    intros f vr t clsr c m nc cls'. rewrite lin_switch. cbv zeta. fold nc. unfold cls'.
+    destruct (lin_cls (lin f) (fun cc => nc ++ cc) clsr m) as [cl1 m1] eqn:Ec. cbn [fst].
+    destruct (ctx_eqb c (nc ++ [mkb vr Prd t])) eqn:Eq.
+    - exists vr. right. apply ctx_eqb_eq in Eq. auto.
+    - destruct (mem (idn vr) (ids nc)); cbn [fst]; eexists; left; reflexivity.
+  Qed.
+  Lemma F2_length : forall {A B} (R : A -> B -> Prop) l l', Forall2 R l l' -> length l = length l'.
+  Proof. intros A B R l l' H; induction H; simpl; auto. Qed.
+
+  Lemma existsb_false_In : forall {A} (f : A -> bool) l x, existsb f l = false -> In x l -> f x = false.
+  Proof.
+    intros A f l x H Hx. destruct (f x) eqn:E; auto.
+    assert (existsb f l = true) by (apply existsb_exists; eauto). congruence.
+  Qed.
+
+  (* free variables of a renamed clause *)
+  Lemma fv_clauses_sub : forall rho cls cl x,
+    In cl cls -> has_subst (cl_body cl) = false -> untouched rho (ids (cl_ctx cl) ++ binders (cl_body cl)) ->
+    In x (fv (cl_body cl)) -> ~ In x (ids (cl_ctx cl)) ->
+    In (sub_n rho x) (fv_clauses (map (fun c0 => (cl_xtor c0, cl_ctx c0, sub_s rho (cl_body c0))) cls)).
+  Proof.
+    intros rho cls cl x Hin Hns Hu Hx Hnx.
+    apply fv_clauses_In. exists (cl_xtor cl, cl_ctx cl, sub_s rho (cl_body cl)).
+    split; [apply in_map_iff; exists cl; auto|].
+    unfold cl_body at 1, cl_ctx at 1; simpl. split.
+    - apply fv_sub; auto. intros y Hy. apply Hu. apply in_or_app; auto.
+    - intros Hc. destruct (Hu (sub_n rho x)) as [Y1 Y2]; [apply in_or_app; auto|].
+      destruct (N.eq_dec x (sub_n rho x)) as [E|E]; [rewrite <- E in Hc; auto|].
+      apply (sub_n_untouched_ne rho x (sub_n rho x) Y1 Y2); auto.
+  Qed.
+
+  (* the clause loop on a renamed clause list, with the equation of every output body exposed *)
+  Lemma lin_cls_map_spec : forall (L : stmt -> ctx -> N -> stmt * N) mk (h : stmt -> stmt) cls m,
+    (forall cl m0, In cl cls -> m <= m0 -> m0 <= snd (L (h (cl_body cl)) (mk (cl_ctx cl)) m0)) ->
+    Forall2 (fun cl cl' => cl_xtor cl' = cl_xtor cl /\ (cl_ctx cl' = cl_ctx cl /\
+               exists m0, m <= m0 /\ cl_body cl' = fst (L (h (cl_body cl)) (mk (cl_ctx cl)) m0)))
+            cls (fst (lin_cls L mk (map (fun c0 => (cl_xtor c0, cl_ctx c0, h (cl_body c0))) cls) m)).
+  Proof.
+    intros L mk h cls; induction cls as [|[[x cc] body] r IH]; intros m H; simpl; [constructor|].
+    cl_simpl.
+    pose proof (H (x, cc, body) m (or_introl eq_refl) (N.le_refl m)) as H0. cl_simpl.
+    destruct (L (h body) (mk cc) m) as [b' m'] eqn:E. simpl in H0.
+    assert (IH' := IH m'). 
+    destruct (lin_cls L mk (map (fun c0 => (cl_xtor c0, cl_ctx c0, h (cl_body c0))) r) m') as [r' m''] eqn:E'.
+    simpl in *. constructor.
+    - cl_simpl. repeat split; auto. exists m. split; [lia|]. rewrite E. auto.
+    - eapply Forall2_impl'; [|apply IH'].
+      + intros a b [A1 [A2 [m0 [A3 A4]]]]. repeat split; auto. exists m0. split; auto. lia.
+      + intros cl m0 Hcl Hm0. apply H; auto. lia.
+  Qed.
+
+  (* ---------------- switch ---------------- *)
+  Lemma sim_switch : forall n, sim_n n -> forall rho c v t cls s' ne le out o,
+    srel rho c (Switch v t cls) s' -> map fst le = vars c -> erel rho (fv (Switch v t cls)) ne le ->
+    exec_named (S n) P ne (Switch v t cls) out = o -> good o -> exists n', exec_linear n' P' le s' out = o.
+  Proof.
+    intros n IH rho c v t cls s' ne le out o Hs Hsh He Hrun Hg.
+    apply srel_fuel in Hs. destruct Hs as [f [m [Hsz [Hns [Hu [Hax [Hinv ->]]]]]]].
+    rewrite sub_s_switch in *.
+    set (vr := sub_id rho v) in *.
+    set (clsr := map (fun c0 => (cl_xtor c0, cl_ctx c0, sub_s rho (cl_body c0))) cls) in *.
+    rewrite size_switch in Hsz. rewrite has_subst_switch in Hns. rewrite binders_switch in Hu.
+    rewrite ax_check_switch in Hax.
+    assert (I1 : NoDup (ids c)) by apply Hinv.
+    apply andb_true_iff in Hax. destruct Hax as [Hax Hcl].
+    apply andb_true_iff in Hax. destruct Hax as [Hv Hok].
+    destruct (lin_switch_form f vr t clsr c m) as [v' Hform].
+    set (nc := filter_by_set c (fv_clauses clsr)) in *.
+    assert (Hnc : NoDup (ids nc)) by (apply fbs_NoDup; auto).
+    (* the clauses of the output *)
+    assert (H2' := lin_cls_map_spec (lin f) (fun cc => nc ++ cc) (sub_s rho) cls m).
+    fold clsr in H2'.
+    assert (H2 : forall cl m0, In cl cls -> m <= m0 ->
+                   m0 <= snd (lin f (sub_s rho (cl_body cl)) (nc ++ cl_ctx cl) m0)).
+    { intros cl m0 Hin Hm0.
+      assert (Hclr : In (cl_xtor cl, cl_ctx cl, sub_s rho (cl_body cl)) clsr).
+      { unfold clsr. apply in_map_iff. exists cl; auto. }
+      destruct (switch_clause_ok c vr t clsr m _ m0 Hinv Hcl Hclr Hm0) as [K1 [K2 _]]. cl_simpl.
+      destruct (lin_good Sg f (sub_s rho (cl_body cl)) (nc ++ cl_ctx cl) m0) as [_ [G _]]; auto.
+      rewrite size_sub. apply size_cls_In in Hin. lia. }
+    specialize (H2' H2).
+    set (cls' := fst (lin_cls (lin f) (fun cc => nc ++ cc) clsr m)) in *.
+    (* the named step *)
+    simpl in Hrun. unfold lookup_id in Hrun.
+    destruct (He (idn v)) as [w [w' [L1 [L2 V]]]]; [rewrite fv_switch; apply add_In; auto|].
+    rewrite L1 in Hrun.
+    destruct w as [z|ty0 tag fs|ty0 cl0 ce0]; try (subst; exfalso; eapply finish_stuck_not_good; eauto; fail).
+    destruct (find_clause cls tag) as [cl|] eqn:Ef; [|subst; exfalso; eapply finish_stuck_not_good; eauto].
+    destruct (bind (vars (cl_ctx cl)) fs) as [e1|] eqn:Eb; [|subst; exfalso; eapply finish_stuck_not_good; eauto].
+    inversion V as [|ty1 tag1 fs1 fs' Hfs|]; subst.
+    destruct (find_clause_F2
+                (fun a b => cl_ctx b = cl_ctx a /\
+                   exists m0, m <= m0 /\ cl_body b = fst (lin f (sub_s rho (cl_body a)) (nc ++ cl_ctx a) m0))
+                cls cls' tag cl H2' Ef) as [cl' [Ef' [[Hctx [m0 [Hm0 Hbody]]] Hin]]].
+    assert (Hlen : length (vars (cl_ctx cl)) = length fs) by (apply bind_Some_length in Eb; tauto).
+    assert (Eb' : bind (vars (cl_ctx cl')) fs' = Some (combine (vars (cl_ctx cl)) fs')).
+    { rewrite Hctx. apply bind_combine. rewrite Hlen. eapply F2_length; eauto. }
+    set (e1' := combine (vars (cl_ctx cl)) fs') in *.
+    set (le0 := rebind le nc nc).
+    assert (Hclr : In (cl_xtor cl, cl_ctx cl, sub_s rho (cl_body cl)) clsr).
+    { unfold clsr. apply in_map_iff. exists cl; auto. }
+    destruct (switch_clause_ok c vr t clsr m _ m0 Hinv Hcl Hclr Hm0) as [K1 [K2 K3]].
+    cl_simpl.
+    assert (Hucl : untouched rho (ids (cl_ctx cl) ++ binders (cl_body cl))).
+    { intros y Hy. apply Hu. eapply binders_cls_In; eauto. }
+    assert (Hnscl : has_subst (cl_body cl) = false).
+    { apply (existsb_false_In (fun c0 => has_subst (cl_body c0)) cls cl Hns Hin). }
+    destruct (IH rho (nc ++ cl_ctx cl) (cl_body cl) (cl_body cl') (e1 ++ ne) (le0 ++ e1') out
+                 (exec_named n P (e1 ++ ne) (cl_body cl) out)) as [n1 Hn1]; auto.
+    { apply srel_intro with (f := f) (m := m0); auto.
+      - apply size_cls_In in Hin. lia.
+      - intros y Hy. apply Hucl. apply in_or_app; auto. }
+    { unfold le0, e1'. rewrite map_app, rebind_fst, vars_app by auto.
+      rewrite combine_map_fst; auto. rewrite Hlen. eapply F2_length; eauto. }
+    { unfold le0, nc. eapply erel_clause_sw with (fs := fs) (fs' := fs'); eauto.
+      - intros y Hy. apply Hucl. apply in_or_app; auto.
+      - unfold e1'. apply bind_combine. rewrite Hlen. eapply F2_length; eauto.
+      - intros x Hx Hnx. split.
+        + rewrite fv_switch. apply add_In. right. apply fv_clauses_In. exists cl; auto.
+        + eapply fv_clauses_sub; eauto. }
+    destruct (wrap_exec P' c le (nc ++ [mkb v' Prd t]) (nc ++ [mkb vr Prd t]) (Switch v' t cls')
+                        (fst (lin (S f) (Switch vr t clsr) c m)) (S n1) out Hsh I1) as [j Hj];
+      [rewrite !app_length; auto| |exact Hform|].
+    { intros b Hb. apply in_app_or in Hb. destruct Hb as [Hb|[<-|[]]].
+      - eapply fbs_in_ctx; eauto.
+      - simpl. eapply has_In_ids; eauto. }
+    exists (j + S n1)%nat. rewrite Hj. rewrite rebind_app by auto. fold le0.
+    assert (Eone : rebind le [mkb vr Prd t] [mkb v' Prd t] = [(v', VObj ty0 tag fs')]).
+    { unfold rebind; simpl. unfold vr. rewrite sub_id_n, (getv_Some _ _ _ L2). auto. }
+    rewrite Eone. rewrite (switch_step P' n1 le0 v' v' ty0 t tag fs' cls' cl' e1'); auto.
   Qed.
 End Sim.
